@@ -198,42 +198,48 @@ Section OpenProofs.
 End OpenProofs.
 
 (** *** pages of a column chunk *)
-Fixpoint sumN (l : list N) : N := match l with [] => 0 | x :: r => x + sumN r end.
+Fixpoint sumN (l : list (N * N)) : N := match l with [] => 0 | (h, b) :: r => h + b + sumN r end.
 
 (* the source ends before the end of the chunk: never a plain end of chunk *)
 Theorem chunk_early_end_reported : forall pages size avail consumed,
   consumed + sumN pages = size -> consumed <= avail -> avail < size ->
   snd (read_pages true size avail consumed pages) = PUnexpected.
 Proof.
-  induction pages as [|pl r IH]; intros size avail consumed Hs Hc Ha; cbn in *.
+  induction pages as [|[h b] r IH]; intros size avail consumed Hs Hc Ha; cbn [read_pages sumN] in *.
   - lia.
-  - unfold end_of_chunk. destruct (avail <=? consumed) eqn:E1; cbn.
+  - unfold end_of_chunk. destruct (avail <=? consumed) eqn:E1; cbn [snd].
     + assert (consumed <? size = true) by lia. rewrite H. reflexivity.
-    + destruct (consumed + pl <=? avail) eqn:E2; cbn; [|reflexivity].
-      specialize (IH size avail (consumed + pl)).
-      destruct (read_pages true size avail (consumed + pl) r) as [k e]. cbn in *. apply IH; lia.
+    + destruct (avail <? consumed + h) eqn:E0; [reflexivity|].
+      destruct ((avail =? consumed + h) && (0 <? b)) eqn:E3; [reflexivity|].
+      destruct (consumed + h + b <=? avail) eqn:E2; [|reflexivity].
+      specialize (IH size avail (consumed + h + b)).
+      destruct (read_pages true size avail (consumed + h + b) r) as [k e]. cbn in *. apply IH; lia.
 Qed.
 
 (* a complete chunk is read to its end *)
 Theorem chunk_complete_read : forall cur pages size avail consumed,
-  consumed + sumN pages = size -> size <= avail -> (forall pl, In pl pages -> 0 < pl) ->
+  consumed + sumN pages = size -> size <= avail -> (forall h b, In (h, b) pages -> 0 < h) ->
   read_pages cur size avail consumed pages = (length pages, PEnd).
 Proof.
-  induction pages as [|pl r IH]; intros size avail consumed Hs Ha Hp; cbn in *.
+  induction pages as [|[h b] r IH]; intros size avail consumed Hs Ha Hp; cbn [read_pages sumN length] in *.
   - unfold end_of_chunk. assert (consumed <? size = false) by lia. rewrite H, andb_false_r. reflexivity.
-  - assert (0 < pl) by (apply Hp; left; reflexivity).
+  - assert (0 < h) by (apply (Hp h b); left; reflexivity).
     destruct (avail <=? consumed) eqn:E1; [lia|].
-    destruct (consumed + pl <=? avail) eqn:E2; [|lia].
-    rewrite (IH size avail (consumed + pl)); [reflexivity|lia|lia|]. intros; apply Hp; right; assumption.
+    destruct (avail <? consumed + h) eqn:E0; [lia|].
+    destruct ((avail =? consumed + h) && (0 <? b)) eqn:E3; [lia|].
+    destruct (consumed + h + b <=? avail) eqn:E2; [|lia].
+    rewrite (IH size avail (consumed + h + b)); [reflexivity|lia|lia|]. intros h' b' Hin; apply (Hp h' b'); right; assumption.
 Qed.
 
 (* the pages returned before the end are a prefix of the chunk's pages *)
 Lemma read_pages_count : forall cur pages size avail consumed,
   (fst (read_pages cur size avail consumed pages) <= length pages)%nat.
 Proof.
-  induction pages as [|pl r IH]; intros; cbn; [lia|].
-  destruct (avail <=? consumed); cbn; [lia|].
-  destruct (consumed + pl <=? avail); cbn; [|lia].
-  specialize (IH size avail (consumed + pl)).
-  destruct (read_pages cur size avail (consumed + pl) r). cbn in *. lia.
+  induction pages as [|[h b] r IH]; intros; cbn [read_pages length]; [cbn; lia|].
+  destruct (avail <=? consumed); cbn [fst]; [lia|].
+  destruct (avail <? consumed + h); cbn [fst]; [lia|].
+  destruct ((avail =? consumed + h) && (0 <? b)); cbn [fst]; [lia|].
+  destruct (consumed + h + b <=? avail); cbn [fst]; [|lia].
+  specialize (IH size avail (consumed + h + b)).
+  destruct (read_pages cur size avail (consumed + h + b) r). cbn in *. lia.
 Qed.
